@@ -44,7 +44,17 @@ fn krylov(t: &mut Toks, cx: &mut Ctx, c09: bool) -> String {
     if max_iter == 0 { cx.check(same_vec(&x.vec, &x0.vec), "iteration budget 0 but x was modified"); }
     if let Ok(Ok(it)) = &r {
         cx.check(*it <= max_iter, "reported iteration count exceeds the budget");
-        cx.check(x.vec.iter().all(|z| z.is_finite()), "success reported but x is not finite");
+        // class tags for failures of the implication (decided by the harness, not by the code under test): a (near-)breakdown of the
+        // two-sided Lanczos process the three non-symmetric solvers are built on, and structural singularity (an empty column)
+        let c08_tag = |solver: &str| -> String {
+            let mut tag = String::new();
+            if solver == "qmr" || solver == "bicg" || solver == "bicgstab" {
+                let lm = lanczos_min(&dense, &b.vec, &x0.vec, n + 2);
+                if lm < 5e-2 { tag.push_str(&format!(" [two-sided Lanczos near-breakdown: min |<w,v>|/(|w||v|) = {:e}]", lm)); }
+                if (0..n).any(|j| (0..n).all(|i| dense[i][j] == 0.0)) { tag.push_str(" [structurally singular: an empty column — the corresponding component of the search directions is seen by no residual]"); }
+            }
+            tag };
+        if !x.vec.iter().all(|z| z.is_finite()) { let t = c08_tag(&solver); cx.fail(format!("success reported but x is not finite{}", t)); }
         let ax = mulv(&x);
         let res: Vec<f64> = (0..n).map(|i| b[i] - ax[i]).collect();
         let bn = nrm(&b.vec);
@@ -66,7 +76,7 @@ fn krylov(t: &mut Toks, cx: &mut Ctx, c09: bool) -> String {
                 }
                 let drift2 = 1e3 * f64::EPSILON * ((*it + 1) as f64) * (an * xmax + bn) * (n as f64).sqrt() / div;
                 cx.meta("largest_iterate_drift", 1);
-                cx.check(rel <= tol * (1.0 + 1e-9) + drift2, &format!("success reported but true relative residual {:e} exceeds tol {:e} (+drift {:e} for the largest iterate {:e})", rel, tol, drift2, xmax));
+                if !(rel <= tol * (1.0 + 1e-9) + drift2) { let t = c08_tag(&solver); cx.fail(format!("success reported but true relative residual {:e} exceeds tol {:e} (+drift {:e} for the largest iterate {:e}){}", rel, tol, drift2, xmax, t)); }
             }
         }
     }
@@ -325,6 +335,33 @@ pub fn gen(rng: &mut Rng, tier: Tier, out: &mut Vec<String>) {
             out.push(one(rng, "krylov", solver, class, n, i % 2, 1000, tol, 1.0, 1));
         }
         DENS.with(|d| d.set(None)); DOM.with(|d| d.set(1.0));
+    }
+    // (NEAR-)BREAKDOWNS of the two-sided Lanczos process with SMALL iterates: matrices with entries in {-1, 0, 1} (exact breakdowns
+    // are common there), a unit right-hand side, and a guess or right-hand-side perturbation of 2^-48 .. 2^-30 that turns the exact
+    // zero denominator into a rounding-level one. Huge internal vectors then cancel, the recurrence residual converges and x does
+    // not follow (QMR answers Ok with a residual 1e10 times the tolerance). Known finding of C08 (class decided by lanczos_min).
+    for i in 0..(if tier == Tier::Quick { 40 } else { 800 }) {
+        let n = 2 + rng.below(4);
+        let mut a = vec![vec![0.0f64; n]; n];
+        for r in 0..n { for c in 0..n { a[r][c] = if rng.chance(55) { 0.0 } else if rng.chance(50) { 1.0 } else { -1.0 }; } }
+        if i % 4 == 0 && n == 3 { a = vec![vec![0.0, 1.0, 1.0], vec![1.0, 1.0, 0.0], vec![1.0, 0.0, 0.0]]; }
+        let k = rng.below(n);
+        let eps = 2f64.powi(-(30 + rng.below(19) as i32));
+        let mut b = vec![0.0f64; n]; b[k] = 1.0;
+        let mut x0 = vec![0.0f64; n];
+        if i % 2 == 0 { for z in x0.iter_mut() { if rng.chance(60) { *z = -eps; } } } else { for (j, z) in b.iter_mut().enumerate() { if j != k && rng.chance(60) { *z = eps * (1.0 + j as f64); } } }
+        for solver in ["qmr", "bicg", "bicgstab"] { let tol = *rng.pick(&[1e-12, 1e-10, 1e-8]);
+            out.push(format!("krylov {} nonsym {} {} {} {} {} 50 {} 1", solver, n, n, trips_of(rng, &a), vstr(&b), vstr(&x0), tol.wr())); }
+    }
+    // STRUCTURALLY SINGULAR systems with an EMPTY COLUMN (and an inconsistent right-hand side): the component of the search
+    // directions in that column is seen by no residual and can grow until it overflows
+    for _ in 0..(if tier == Tier::Quick { 20 } else { 400 }) {
+        let n = 3 + rng.below(3);
+        let mut a = vec![vec![0.0f64; n]; n];
+        for r in 0..n { for c in 0..n { a[r][c] = if rng.chance(45) { 0.0 } else { rng.range(-3, 3) as f64 }; } }
+        let e = rng.below(n); for r in 0..n { a[r][e] = 0.0; }
+        let b: Vec<f64> = (0..n).map(|_| rng.range(-2, 2) as f64).collect();
+        for solver in SOLVERS { out.push(format!("krylov {} singular {} {} {} {} {} {} {} 1", solver, n, n, trips_of(rng, &a), vstr(&b), vstr(&vec![0.0; n]), *rng.pick(&[40usize, 100]), (1e-10f64).wr())); }
     }
 }
 
